@@ -53,4 +53,35 @@ def MProbe.model (lib : Lib) (p : MProbe) : MOut :=
 
 def MProbe.check (lib : Lib) (p : MProbe) : Bool := p.model lib == p.out
 
+/-- one `add_route(name, '/x', kw=value)` of the running code: was `value` the unset one, how many predicates resulted -/
+structure AProbe where
+  kw : String
+  value : String
+  unset : Bool
+  npreds : Nat
+
+def kindOfName : String → Option BuiltinKind
+  | "xhr" => some .xhr
+  | "request_method" => some .requestMethod
+  | "path_info" => some .pathInfo
+  | "request_param" => some .requestParam
+  | "header" => some .header
+  | "accept" => some .accept
+  | "is_authenticated" => some .isAuthenticated
+  | "effective_principals" => some .effectivePrincipals
+  | "traverse" => some .traverse
+  | _ => none
+
+/-- the model's `addRoute` attaches as many predicates for this keyword value as the running code did -/
+def AProbe.check (p : AProbe) : Bool :=
+  let bs : List (BuiltinKind × Option Pred) :=
+    match kindOfName p.kw with
+    | some k => [(k, if p.unset then none else some (.const true))]
+    | none => []                                   -- `custom_predicates=()`: no built-in keyword, no custom predicate
+  ((kindOfName p.kw).isSome || p.unset) &&
+  match addRoute none { name := [], pattern := some ['/', 'x'], path := none, inheritSlash := false, static := false,
+                        preds := [], builtins := bs } with
+  | .ok (_, ps, _) => ps.length == p.npreds
+  | .error _ => false
+
 end Pyr.Route
